@@ -151,8 +151,7 @@ def check_common_indices(ctx):
     ctx.need(rets, "%s: no return" % site)
     for r_ in rets:
         rv = r_.value
-        ok = isinstance(rv, list) and len(rv) == 2 and "elem#1($inputs)" in rv[0].key() and "elem#2($inputs)" in rv[1].key() \
-            and "elem#2($inputs)" not in rv[0].key()
+        ok = isinstance(rv, list) and len(rv) == 2 and "elem#1($inputs)" in rv[0].key() and "elem#2($inputs)" in rv[1].key()
         ctx.ob("C02.1", site, ok, "index lists are returned in input order", loc=prog.loc(m, r_.node),
                msg="the returned list is not [indices of input 1, indices of input 2, ...]: %s" % [str(x)[:80] for x in rv] if isinstance(rv, list) else str(rv)[:100])
     ctx.floor("C02.1", 14)
